@@ -30,6 +30,9 @@ def pre_build():
     sys.path.insert(0, str(__import__("harness.common", fromlist=["VERIF"]).VERIF / "translate"))
     import handlers2lean
     handlers2lean.main()
+    import state2lean
+    from harness.common import REPO, VERIF
+    state2lean.main(str(REPO), str(VERIF / "lean" / "LbfgsbVerif" / "Generated" / "State.lean"))
 
 
 def evaluate(case: Dict[str, Any]) -> Dict[str, Any]:
